@@ -234,7 +234,9 @@ class StackSim:
         self.clients = {}
         self.insts = {}
         for iid, svc, reject in sc["insts"]:
-            inst = S.ServiceInstance(conv.d_service(svc), RecServer(self, iid, reject), self.prot.announcer, self.timings)
+            # "inst_cfg": an instance with a Timings object of its OWN (model-free checks only: the model has one configuration)
+            own = sc.get("inst_cfg", {}).get(iid)
+            inst = S.ServiceInstance(conv.d_service(svc), RecServer(self, iid, reject), self.prot.announcer, self.timings if own is None else timings_of(own))
             inst.log.disabled = True
             inst.subscriptions._verif = (self, [iid])
             self.insts[iid] = inst
